@@ -220,6 +220,7 @@ class Ctx:
     def __init__(self, rng, arch, al):
         self.rng, self.arch, self.al = rng, arch, al
         self.prev_ofm = None
+        self.last_dma_dst = None     # NpuAddressRange written by the latest DMA (candidate weight buffer -> DMA_WAIT)
 
 
 def maybe_upscale(rng, op, ih, iw):
@@ -231,13 +232,18 @@ def maybe_upscale(rng, op, ih, iw):
     return ih, iw
 
 
-def weights_for(rng, al, arch, n=None):
+def weights_for(rng, al, arch, n=None, dma_dst=None):
     a = api()
     region = rng.choice([0, 0, 1, 2])
     n = n if n is not None else (rng.choice([1, 2]) if arch.ncores == 2 else 1)
     ws, bs = [], []
-    for _ in range(n):
+    for i in range(n):
         ln = 16 * rng.choice([1, 2, 5, 30, 481, 4096])
+        if i == 0 and dma_dst is not None and dma_dst.region < 8 and dma_dst.address % 16 == 0 and dma_dst.length % 16 == 0 \
+                and dma_dst.length > 0 and rng.random() < 0.5:
+            region = dma_dst.region          # double-buffered weights: the conv must wait for the DMA
+            ws.append(a.NpuAddressRange(region=region, address=dma_dst.address, length=dma_dst.length))
+            continue
         ws.append(a.NpuAddressRange(region=region, address=al.get(region, ln, 16), length=ln))
     if rng.random() < 0.9:
         bregion = region if rng.random() < 0.7 else rng.choice([0, 1, 2])
@@ -278,7 +284,7 @@ def gen_conv(ctx, depthwise, big):
     odt = dt if rng.random() < 0.8 else rng.choice([a.NpuDataType.UINT8, a.NpuDataType.INT8, a.NpuDataType.INT16, a.NpuDataType.INT32])
     op.ofm = make_fm(rng, ctx.al, a.NpuShape3D(height=oh, width=ow, depth=od), odt,
                      quant="none" if op.ifm.quantization is None else "rand")
-    op.weights, op.biases = weights_for(rng, ctx.al, ctx.arch)
+    op.weights, op.biases = weights_for(rng, ctx.al, ctx.arch, dma_dst=ctx.last_dma_dst)
     if not depthwise:
         op.block_traversal = rng.choice([a.NpuBlockTraversal.DEPTH_FIRST, a.NpuBlockTraversal.PART_KERNEL_FIRST])
     op.activation = rand_activation(rng, odt)
@@ -361,10 +367,16 @@ def gen_elementwise(ctx, big):
             op.ifm2.data_type = dt
             op.ifm2.quantization = None if q == "none" else a.NpuQuantization(
                 scale_f32=rng.choice([1.0, 0.5, 0.25]), zero_point=rng.choice([0, 0, 3, -5]) if dt.is_signed() else rng.choice([0, 7]))
+            # choose the quantised value first so that it is representable in the IFM2 data type and in the 16-bit register
             lo, hi = max(dt.min_value(), -30000), min(dt.max_value(), 30000)
-            op.ifm2_scalar = float(rng.choice([0, 1, -1 if lo < 0 else 2, rng.randint(lo // 4, hi // 4)]))
+            q = rng.choice([lo, hi, 0 if lo <= 0 else lo, rng.randint(lo, hi), rng.randint(max(lo, -8), min(hi, 8))])
             if sub in (E.SHL, E.SHR):
-                op.ifm2_scalar = float(rng.randint(0, 31))
+                q = rng.randint(0, 31)
+            sc2 = 1.0 if op.ifm2.quantization is None else op.ifm2.quantization.scale_f32
+            zp2 = 0 if op.ifm2.quantization is None else op.ifm2.quantization.zero_point
+            op.ifm2_scalar = float((q - zp2) * sc2)
+            if q_f32(op.ifm2_scalar, op.ifm2.quantization) != q:
+                op.ifm2_scalar = float(q_f32(0.0, op.ifm2.quantization) * 0)
         else:
             s2 = a.NpuShape3D(height=h if rng.random() < 0.8 else 1, width=w if rng.random() < 0.8 else 1,
                               depth=d if rng.random() < 0.8 else 1)
@@ -399,6 +411,11 @@ def gen_dma(ctx):
         src = ctx.al.get(sreg, ln, 1) + rng.choice([0, 1, 5])
     else:
         src = ctx.al.get(sreg, ln, 16)
+    p = ctx.prev_ofm
+    if p is not None and not to_shram and rng.random() < 0.3 and p.tiles.addresses[0] % 16 == 0:
+        # read what the previous operation wrote -> KERNEL_WAIT
+        sreg, src = p.region, p.tiles.addresses[0]
+        ln = 16 * rng.choice([1, 2, 4])
     if to_shram:
         ln = rng.choice([256, 512, 1024, 2048])
         slot = rng.randint(0, (2048 - ln) // 256)
@@ -413,6 +430,7 @@ def gen_dma(ctx):
     op = a.NpuDmaOperation(a.NpuAddressRange(sreg, src, ln), a.NpuAddressRange(dreg, dst, ln))
     if rng.random() < 0.15:
         op.channel, op.mode = rng.choice([0, 1]), rng.choice([0, 1])
+    ctx.last_dma_dst = op.dest
     return op
 
 
